@@ -493,6 +493,8 @@ def preprocess_tree_sequences(
             result_sequence.append((result_matrix, label_sequence))
     else:
         result_sequence = []
+        # Work on a copy: the dictionary may be the caller's own object
+        token_dictionary = dict(token_dictionary)
         if masking in token_dictionary:
             del token_dictionary[masking]
 
@@ -667,6 +669,8 @@ def preprocess_token_sequences(
             )
     else:
         result_sequences = List()
+        # Work on a copy: the dictionary may be the caller's own object
+        token_dictionary = dict(token_dictionary)
         if masking in token_dictionary:
             del token_dictionary[masking]
 
@@ -847,6 +851,8 @@ def preprocess_timed_token_sequences(
             )
     else:
         result_sequences = List()
+        # Work on a copy: the dictionary may be the caller's own object
+        token_dictionary = dict(token_dictionary)
         if masking in token_dictionary:
             del token_dictionary[masking]
 
@@ -1033,6 +1039,8 @@ def preprocess_multi_token_sequences(
                 )
             full_sequence.append(result_sequences)
     else:
+        # Work on a copy: the dictionary may be the caller's own object
+        token_dictionary = dict(token_dictionary)
         if masking in token_dictionary:
             del token_dictionary[masking]
 
